@@ -373,6 +373,76 @@ func main() {
 				}
 			}
 		}
+		// typed vs generic for tile covers: Geometry(g) is what the function for g's kind returns (degenerate
+		// one-vertex lines and rings included), and a collection's cover is the union of its members' covers
+		for _, z := range []maptile.Zoom{0, 3, 12} {
+			var typedCover func(m orb.Geometry) (maptile.Set, error, bool)
+			typedCover = func(m orb.Geometry) (maptile.Set, error, bool) {
+				switch v := m.(type) {
+				case orb.Point:
+					return tilecover.Point(v, z), nil, true
+				case orb.MultiPoint:
+					return tilecover.MultiPoint(v, z), nil, true
+				case orb.LineString:
+					return tilecover.LineString(v, z), nil, true
+				case orb.MultiLineString:
+					return tilecover.MultiLineString(v, z), nil, true
+				case orb.Ring:
+					s, err := tilecover.Ring(v, z)
+					return s, err, true
+				case orb.Polygon:
+					s, err := tilecover.Polygon(v, z)
+					return s, err, true
+				case orb.MultiPolygon:
+					s, err := tilecover.MultiPolygon(v, z)
+					return s, err, true
+				case orb.Bound:
+					return tilecover.Bound(v, z), nil, true
+				case orb.Collection:
+					u := maptile.Set{}
+					for _, mm := range v {
+						s, err, ok := typedCover(mm)
+						if !ok || err != nil {
+							return nil, err, ok
+						}
+						u.Merge(s)
+					}
+					return u, nil, true
+				}
+				return nil, nil, false
+			}
+			var want, got maptile.Set
+			var werr, gerr error
+			ok := false
+			_, p1 := try(func() interface{} { want, werr, ok = typedCover(g); return nil })
+			_, p2 := try(func() interface{} { got, gerr = tilecover.Geometry(g, z); return nil })
+			if p1 != "" || p2 != "" || !ok {
+				continue
+			}
+			same := (werr == nil) == (gerr == nil)
+			if same && werr == nil {
+				n := 0
+				for t, v := range got {
+					if v {
+						n++
+						if !want[t] {
+							same = false
+						}
+					}
+				}
+				wn := 0
+				for _, v := range want {
+					if v {
+						wn++
+					}
+				}
+				same = same && n == wn
+			}
+			if !same {
+				c.Failf("typed-vs-generic", "tilecover.Geometry(%s, %d) = %d tiles / %v, the kind-specific functions give %d tiles / %v", desc, z, len(got), gerr, len(want), werr)
+				break
+			}
+		}
 		// typed vs generic for the measures
 		switch v := g.(type) {
 		case orb.Polygon:
